@@ -177,6 +177,25 @@ impl Prop for C08 {
             Part { name: "random".into(), strategy: s2, cases: tier.pick(100_000, 2_000_000) },
         ]
     }
+    fn enumerations(&self, tier: Tier) -> Vec<(String, String, Box<dyn Iterator<Item = Case08> + Send>)> {
+        // the two finite scopes of C01, each pattern compiled both ways; fewer inputs (every call is made four ways, twice)
+        let (name, scope, it) = super::c01::macro_enumeration(tier);
+        let it = it.map(|mut ast| {
+            if let Inputs::Lit(v) = &mut ast.inputs {
+                v.retain(|s| s.chars().count() <= 4);
+            }
+            Case08 { ast, rep: "[$0]".into() }
+        });
+        let size = tier.pick(3, 4);
+        let nodes = crate::enumerate::up_to(&super::c01::enum_cfg(), size);
+        let inputs = crate::enumerate::inputs(&['a', 'b', '\n'], 3);
+        let scope2 = format!("all {} ASTs of size <= {} over the atoms and quantifiers of C01's first scope x {} inputs over {{a,b,LF}} of length <= 3 x flags {{'', i, m, ms}}", nodes.len(), size, inputs.len());
+        let it2 = nodes.into_iter().flat_map(move |node| {
+            let inputs = inputs.clone();
+            ["", "i", "m", "ms"].into_iter().map(move |f| Case08 { ast: AstCase { node: node.clone(), flags: f.to_string(), inputs: Inputs::Lit(inputs.clone()) }, rep: "[$0]".into() })
+        });
+        vec![(name, format!("{scope} (inputs of length <= 4 only)"), Box::new(it)), ("exhaustive-small".into(), scope2, Box::new(it2))]
+    }
     fn check(&self, case: &Case08, ctx: &mut Ctx) -> Verdict {
         check_opt(case, ctx)
     }
